@@ -35,6 +35,12 @@ prop("C06", True,
      note="Trusted: go/ssa; errgroup.Wait returns the first error; a callee that is handed the file name names it in its errors (read once for GuessFileType, FromPB*, ReadHashBranch). Not decided: which error is reported when several files fail, timing, crash-freedom of the failure paths (R-GUARD under C01). Nine exceptions with reasons (operation-summary writes, root-marker and modules.yaml probes, configuration errors before any file is read).",
      design="DESIGN.md §3 C06")
 
+prop("C19", True,
+     technique="unordered-iteration taint analysis on SSA (loop-relative root classification, bottom-up effect summaries over the whole-program VTA call graph, tainted-result propagation) + who-may-call rule for clock/random/non-deterministic encoders",
+     text="Decides a structural necessary condition of determinism: every `range` over a Go map (and every reflect MapKeys/MapRange, and every slice returned in map order) in non-generated generator code is classified; a loop is order-insensitive only if no effect reachable from its body — writes to writers/builders/files held outside the loop, appends to outer slices not sorted before use, string concatenation, last-writer-wins stores and map updates under non-injective keys, early returns of iteration-dependent values, and the same effects performed by callees (summaries with parameter substitution) on storage that lives outside the loop — depends on the visiting order. Binary protobuf encoding must use Deterministic: true; clock/random/pid reads in generator code are reported. A new unsorted map walk that feeds ordered output (the validated 'remove the sort of application names' mutation, and its siblings in every generator) is reported with the sink. Loops flagged on the pinned tree are each an exception with a reason, a reproduced known finding (Mermaid generators, database line-number collisions), or an unconfirmed baseline row.",
+     note="Trusted: go/ssa, VTA call graph; third-party encoders (encoding/json, protojson, prototext, ghodss/yaml) are deterministic; distinct map values do not alias; logging is not output; push/pop stack fields are balanced. Not decided: byte-identity of output (only the absence of order-dependent construction), arr.ai bundles, 39 baseline loops reported as unconfirmed.",
+     design="DESIGN.md §3 C19, §2 R-ORDER")
+
 for i in range(1, 21):
     pid = "C%02d" % i
     if pid not in P:
